@@ -26,6 +26,8 @@ var verifFuzzProgs = []verifTemplate{
 	{"continue-in-if-else", "fn main() {\n  let n = 0;\n  while n < 4 {\n    n += 1;\n    if n == C { continue; } else { println(\"w\", n); }\n    println(\"x\");\n  }\n  println(\"end\", n);\n}\n"},
 	{"global-initialisers", "let dozen = 3 * 4 == 12;\nlet other = 2 * 3 != 7;\nlet prod = 5 * 2;\nlet cmp = 10 - 4 < 3 * 3;\nlet txt = \"a\" + \"b\";\nfn main() {\n  println(dozen, other, prod, cmp, txt);\n}\n"},
 	{"none-literal", "fn main() {\n  let n: ?int = none;\n  println(n);\n}\n"},
+	{"loop-break", "fn main() {\n  let n = 0;\n  loop {\n    n += 1;\n    if n > K { break; }\n  }\n  println(n);\n}\n"},
+	{"loop-continue", "fn main() {\n  for i in 0..3 {\n    if i == A { continue; }\n    println(i);\n  }\n}\n"},
 	{"null-literal", "fn f() -> null { return null; }\nfn main() {\n  f();\n  println(1);\n}\n"},
 }
 
